@@ -89,6 +89,18 @@ def evaluate(case):
             e_t = compute_features_2d(np.array(sig, float).reshape(2, -1), o['fs'], o['f_range'], kw, axis=None, return_samples=True)
             e_p = compute_features_2d(-np.array(sig, float).reshape(2, -1), o['fs'], o['f_range'], kp, axis=None, return_samples=True)
         nev += 2
+        # ... and for per-signal option LISTS of the 2-D function (each signal analysed on its own)
+        from bcmc import sched
+        two = np.array([np.array(sig, float), np.array(sig, float)[::-1].copy()])
+        with sched.patched_pool(None), contextlib.redirect_stdout(io.StringIO()):
+            l_t = compute_features_2d(two, o['fs'], o['f_range'], [dict(kw), dict(kw)], axis=0, return_samples=True, n_jobs=1)
+            l_p = compute_features_2d(-two, o['fs'], o['f_range'], [dict(kp), dict(kp)], axis=0, return_samples=True, n_jobs=1)
+        nev += 2
+        for e in range(2):
+            dd = diff_tables(l_t[e], mirror(l_p[e]), exact=True)
+            if dd:
+                return VIOL(dict(sgn, kind='mirror-list', first=e == 0), 'signal %d of compute_features_2d(axis=0, per-signal option list): the '
+                            'trough-centred table is not the mirror of the peak-centred table of -x: %s' % (e, dd), evals=nev)
         for e in range(2):
             dd = diff_tables(e_t[e], mirror(e_p[e]), exact=True)
             if dd:
